@@ -419,7 +419,7 @@ class HeaderSearchCriteria(SearchCriteria):
     def __init__(self, name: str, value: str, params: SearchParams) -> None:
         super().__init__(params)
         # a name that is not ASCII is the name of no header field
-        self.name = name.encode('utf-8')
+        self.name = name.encode('utf-8', 'replace')
         self.value = value
 
     def matches(self, msg_seq: int, msg: MessageInterface,
